@@ -194,6 +194,34 @@ func runC18(c *Ctx) {
 		if n == 0 {
 			R.Fail("C18.ctx", "logger|AliasContext|same-id", P.Pos(al.Pos()), "AliasContext never copies the source's id", nil)
 		}
+		// every result is either the source's id put on the parent, or a fresh id
+		k := 0
+		for _, r := range core.Returns(al) {
+			k++
+			okr := false
+			var vals []ssa.Value
+			if phi, isPhi := r.Results[0].(*ssa.Phi); isPhi {
+				vals = phi.Edges
+			} else {
+				vals = []ssa.Value{r.Results[0]}
+			}
+			okr = true
+			for _, v := range vals {
+				call, isCall := v.(*ssa.Call)
+				if !isCall || call.Call.StaticCallee() == nil {
+					okr = false
+					continue
+				}
+				switch core.FullName(call.Call.StaticCallee()) {
+				case "context.WithValue", "logger.WithContext":
+				default:
+					okr = false
+				}
+			}
+			R.Check(okr, "C18.ctx", fmt.Sprintf("logger|AliasContext|result#%d", k), P.InstrPos(r),
+				"the alias is the parent carrying the source's id, or a fresh id when the source has none",
+				"AliasContext can return a context that is neither WithValue(parent, idKey, source's id) nor WithContext(parent): the alias would not carry its source's id", nil)
+		}
 	}
 
 	// ---- C18.oneline
@@ -258,6 +286,32 @@ func runC18(c *Ctx) {
 			call, ok := in.(*ssa.Call)
 			return ok && call.Call.IsInvoke() && call.Call.Method.Name() == want
 		}, "Logger."+want)
+	}
+	// no write other than the logger call may reach the current log writer
+	for _, name := range []string{"(*loggerPlus).doPrintln", "(*loggerPlus).doPrintf"} {
+		fn := P.Func("logger", name)
+		if fn == nil {
+			continue
+		}
+		bad := ""
+		core.EachInstr(fn, func(in ssa.Instruction) {
+			call, ok := in.(*ssa.Call)
+			if !ok || isStdLog(in) {
+				return
+			}
+			for _, a := range call.Call.Args {
+				p := core.Path(a)
+				if p == "logger.previousWriter" || strings.HasPrefix(p, "v.logger") {
+					bad = core.CalleeName(&call.Call) + " on " + p + " at " + P.InstrPos(call)
+				}
+			}
+			if call.Call.IsInvoke() && (core.Path(call.Call.Value) == "logger.previousWriter") {
+				bad = "invoke " + call.Call.Method.Name() + " on logger.previousWriter at " + P.InstrPos(call)
+			}
+		})
+		R.Check(bad == "", "C18.oneline", "logger|"+name+"|no-extra-write-to-log-writer", P.Pos(fn.Pos()),
+			"nothing but the one logger call writes to the current log writer",
+			"a logging call makes an additional, separately written output to the current log writer ("+bad+"): pieces of one line can interleave with another goroutine's line", nil)
 	}
 	// observation: colour escapes
 	for _, name := range []string{"(*loggerPlus).doPrintln", "(*loggerPlus).doPrintf"} {
